@@ -1,0 +1,18 @@
+//go:build verif
+
+// Contracts for package native: the driver interfaces. Every implementation in
+// /repo is checked against them; drivers registered by users are assumed to
+// satisfy them.
+package native
+
+//@ interface Serializer.Serialize(s Serializer, doc *sbom.Document, so *SerializeOptions, fo any)
+//@   assigns \nothing
+
+//@ interface Serializer.Render(s Serializer, doc any, wr io.Writer, ro *RenderOptions, fo any)
+//@   requires ro != nil
+//@   assigns \nothing
+
+//@ interface Unserializer.Unserialize(u Unserializer, r io.Reader, uo *UnserializeOptions, fo any)
+//@   assigns \nothing
+//@   ensures [C04:unserialize:oneOf] (result1 == nil) != (result0 == nil)
+//@   ensures [C04:unserialize:complete] result1 == nil ==> result0.Metadata != nil && result0.NodeList != nil
